@@ -8,9 +8,10 @@ MODULE = "TraceAutomata"
 
 
 def generate(rng, tier, shard, nshards):
+    event = aops.variant_event(rng, skip=())
     for M in aops.tlc_automata(shard, nshards, every=2 if tier == "quick" else 1):     # (C) the TLC-enumerated family
         for fn in ("trim", "trim_vals"):
-            yield aops.event("wop", {"sr": "Sat3", "A": M, "sigma": ["a"], "L": 3, "fn": fn}, site=f"WFSA.{fn}", feat="tlc-family")
+            yield event("wop", {"sr": "Sat3", "A": M, "sigma": ["a"], "L": 3, "fn": fn}, site=f"WFSA.{fn}", feat="tlc-family")
     n = 30 if tier == "quick" else 300
     L = 3 if tier == "quick" else 4
     sig = ["a", "b"]
@@ -22,7 +23,7 @@ def generate(rng, tier, shard, nshards):
             feat = aops.afeat(A)
             base = {"sr": srn, "A": A, "sigma": sig, "L": max(L, A["n"]), "style": style}
             for fn in ("determinize", "min_det", "push", "trim", "trim_vals"):
-                yield aops.event("wop", dict(base, fn=fn), site=f"WFSA.{fn}", feat=feat, timeout=10)
+                yield event("wop", dict(base, fn=fn), site=f"WFSA.{fn}", feat=feat, timeout=10)
             if i % 2 == 0:
                 # two prefixes reach the same set of states with different weight ratios, and the states then split their
                 # weight differently: the residual weights of the power state matter, not only its support
@@ -34,21 +35,21 @@ def generate(rng, tier, shard, nshards):
                 if rng.random() < 0.5:
                     D["I"].append([rng.choice([1, 2]), w()])
                 for fn in ("determinize", "min_det", "push"):
-                    yield aops.event("wop", {"sr": srn, "A": D, "sigma": sig, "L": 3, "fn": fn, "style": style},
+                    yield event("wop", {"sr": srn, "A": D, "sigma": sig, "L": 3, "fn": fn, "style": style},
                                      site=f"WFSA.{fn}", feat="same-support-different-ratios", timeout=10)
             if i % 3 == 0:
                 # cyclic but already deterministic: the subset construction terminates
                 D = {"n": 2, "I": [[0, A["I"][0][1]]], "F": [[1, A["I"][0][1]]],
                      "arcs": [[0, "a", 1, A["I"][0][1]], [1, "b", 1, [1, 4]], [1, "a", 0, [1, 4]]]}   # cycle mass < 1
                 for fn in ("determinize", "push", "min_det"):
-                    yield aops.event("wop", {"sr": srn, "A": D, "sigma": sig, "L": L, "fn": fn, "style": style},
+                    yield event("wop", {"sr": srn, "A": D, "sigma": sig, "L": L, "fn": fn, "style": style},
                                      site=f"WFSA.{fn}", feat="cycle", timeout=5)
         else:
             A = aops.rand_wfsa(rng, srn, nS=rng.choice([3, 4]), narcs=rng.choice([4, 6, 8]))
             feat = aops.afeat(A)
             base = {"sr": srn, "A": A, "sigma": sig, "L": L, "style": style}
             for fn in ("trim", "trim_vals"):
-                yield aops.event("wop", dict(base, fn=fn), site=f"WFSA.{fn}", feat=feat)
+                yield event("wop", dict(base, fn=fn), site=f"WFSA.{fn}", feat=feat)
 
 
 def selftests(events, rng):
